@@ -1,5 +1,5 @@
 (* Extraction of the executable models and verified judges.  ExtrOcamlBasic only (bool, option, list, prod, unit to the
    OCaml types); nat / positive / N / Z stay the extracted inductive types; no Extract Constant. *)
-From MX Require Import Spec.Particle Spec.Deriv Spec.Parikh Model.PyM Model.AbsSeq Model.AbsSeqC02 Model.Classes Model.SeqMachine Model.AbsBag Model.Unchecked Model.Attr Model.AttrExec Spec.Naming.
+From MX Require Import Spec.Particle Spec.Deriv Spec.Parikh Model.PyM Model.AbsSeq Model.AbsSeqC02 Model.Classes Model.SeqMachine Model.AbsBag Model.Unchecked Model.Attr Model.AttrExec Spec.Naming Model.Ser.
 Require Import ExtrOcamlBasic.
-Separate Extraction AttrExec.attr_trace Naming.xml_class_name Naming.hyph Naming.under Unchecked.utrace Unchecked.to_string_ok Parikh.dead Parikh.witness AbsBag.bag_of AbsBag.is_bag AbsBag.btrace SeqMachine.mtrace SeqMachine.minit Classes.stree_of Classes.is_seq Classes.no_opt PyM.run AbsSeq.run AbsSeq.step AbsSeq.required AbsSeq.ordered AbsSeq.init Particle.accepts Particle.re_of Particle.nullable Particle.deriv.
+Separate Extraction Ser.escape_text Ser.escape_attr AttrExec.attr_trace Naming.xml_class_name Naming.hyph Naming.under Unchecked.utrace Unchecked.to_string_ok Parikh.dead Parikh.witness AbsBag.bag_of AbsBag.is_bag AbsBag.btrace SeqMachine.mtrace SeqMachine.minit Classes.stree_of Classes.is_seq Classes.no_opt PyM.run AbsSeq.run AbsSeq.step AbsSeq.required AbsSeq.ordered AbsSeq.init Particle.accepts Particle.re_of Particle.nullable Particle.deriv.
